@@ -316,7 +316,11 @@ NAMEDTUPLE_FIELDS: dict[str, list[tuple[str, ast.expr | None]]] = {}
 
 class _Project(ast.NodeTransformer):
     """``T(a, b, c).f`` -> the argument bound to field f, and ``T(a, b, c)[k]`` likewise, for NamedTuple classes of the package whose
-    construction has pure arguments (a projection of a freshly built record never observes anything else)."""
+    construction has pure arguments (a projection of a freshly built record never observes anything else).  With ``allow_calls``
+    (the caller treats calls as values on the path it resolves) arguments may be calls."""
+
+    def __init__(self, allow_calls: bool = False) -> None:
+        self.allow_calls = allow_calls
 
     def _args(self, c: ast.Call) -> dict[str, ast.expr] | None:
         name = dotted(c.func)
@@ -335,7 +339,8 @@ class _Project(ast.NodeTransformer):
                 if dflt is None:
                     return None
                 out[fname] = dflt
-        if not all(is_pure_expr(v) for v in out.values()):
+        if not all(is_pure_expr(v) or (self.allow_calls and not any(isinstance(x, (ast.Await, ast.Yield, ast.YieldFrom, ast.NamedExpr)) for x in ast.walk(v)))
+                   for v in out.values()):
             return None
         return out
 
@@ -377,7 +382,9 @@ class PathEnv:
             else:
                 n2 = _Subst(self.env).visit(n2)
             if NAMEDTUPLE_FIELDS:
-                n2 = _Project().visit(n2)
+                n2 = _Project(self.allow_calls).visit(n2)
+            if isinstance(n2, (ast.expr, ast.Assign, ast.Return, ast.Expr)):
+                n2 = _Strings().visit(n2)  # spellings that only appear once the locals are substituted
         return ast.fix_missing_locations(n2)
 
     def _ok_value(self, val: ast.expr) -> bool:
@@ -404,6 +411,12 @@ class PathEnv:
             # (x = E[x]: st2 is already resolved, so an x that is still read on the right is the earlier, opaque value of x; every later
             #  read of x is replaced by E[x], i.e. names in resolved text always denote their last opaque definition)
             self.env[tgt] = val
+        # a, b = Record(x, y) for a NamedTuple of the package: the same as unpacking the tuple of its fields
+        if isinstance(st2, ast.Assign) and len(st2.targets) == 1 and isinstance(st2.targets[0], ast.Tuple) and isinstance(st2.value, ast.Call) \
+                and dotted(st2.value.func) in NAMEDTUPLE_FIELDS:
+            bound = _Project(self.allow_calls)._args(st2.value)
+            if bound is not None and len(bound) == len(st2.targets[0].elts):
+                st2 = ast.copy_location(ast.Assign(targets=st2.targets, value=ast.Tuple(elts=list(bound.values()), ctx=ast.Load())), st2)
         # a, b = (x, y): component-wise (the right-hand side is already resolved, so a tuple-valued local works too)
         if isinstance(st2, ast.Assign) and len(st2.targets) == 1 and isinstance(st2.targets[0], ast.Tuple) and isinstance(st2.value, ast.Tuple) \
                 and len(st2.targets[0].elts) == len(st2.value.elts) and all(isinstance(t, ast.Name) for t in st2.targets[0].elts):
@@ -923,6 +936,39 @@ class HelperInliner:
                     continue  # re-examine the spliced statements
                 # expression-level helpers inside this statement
                 self._inline_exprs(st, fn, cls, qual)
+                if isinstance(st, (ast.Return, ast.Assign)) and isinstance(st.value, (ast.DictComp, ast.ListComp)) and len(st.value.generators) == 1 \
+                        and not st.value.generators[0].is_async and (isinstance(st, ast.Return) or (len(st.targets) == 1 and isinstance(st.targets[0], ast.Name))):
+                    comp = st.value
+                    elts = [comp.key, comp.value] if isinstance(comp, ast.DictComp) else [comp.elt]
+                    helper_calls = [c for e_ in elts for c in ast.walk(e_) if isinstance(c, ast.Call) and self.resolve(c, fn, cls, qual) is not None]
+                    if helper_calls:
+                        # {k: helper(k) for k in X}  ->  acc = {}; for k in X: acc[k] = helper(k)   (the helper needs statements to be inlined)
+                        self.counter += 1
+                        acc = st.targets[0].id if isinstance(st, ast.Assign) and not any(  # type: ignore[union-attr]
+                            isinstance(n, ast.Name) and n.id == st.targets[0].id for n in ast.walk(comp)) else f"__acc{self.counter}"  # type: ignore[union-attr]
+                        g_ = comp.generators[0]
+                        ren = {n.id: f"{n.id}__c{self.counter}" for n in ast.walk(g_.target) if isinstance(n, ast.Name)}
+                        tgt_ = _Rename(ren).visit(copy.deepcopy(g_.target))
+                        if isinstance(comp, ast.DictComp):
+                            store: ast.stmt = ast.Assign(targets=[ast.Subscript(value=ast.Name(id=acc, ctx=ast.Load()), slice=_Rename(ren).visit(copy.deepcopy(comp.key)), ctx=ast.Store())],
+                                                         value=_Rename(ren).visit(copy.deepcopy(comp.value)))
+                            init_v: ast.expr = ast.Dict(keys=[], values=[])
+                        else:
+                            store = ast.Expr(value=ast.Call(func=ast.Attribute(value=ast.Name(id=acc, ctx=ast.Load()), attr="append", ctx=ast.Load()),
+                                                            args=[_Rename(ren).visit(copy.deepcopy(comp.elt))], keywords=[]))
+                            init_v = ast.List(elts=[], ctx=ast.Load())
+                        inner_: list[ast.stmt] = [store]
+                        for c_ in reversed(g_.ifs):
+                            inner_ = [ast.If(test=_Rename(ren).visit(copy.deepcopy(c_)), body=inner_, orelse=[])]
+                        loop2 = ast.For(target=tgt_, iter=g_.iter, body=inner_, orelse=[])
+                        new_ = [ast.Assign(targets=[ast.Name(id=acc, ctx=ast.Store())], value=init_v), loop2]
+                        if isinstance(st, ast.Return):
+                            new_.append(ast.Return(value=ast.Name(id=acc, ctx=ast.Load())))
+                        for x_ in new_:
+                            ast.copy_location(x_, st)
+                            ast.fix_missing_locations(x_)
+                        block[i:i + 1] = new_
+                        continue
                 for sub in _blocks(st):
                     process(sub)
                 i += 1
@@ -1387,6 +1433,18 @@ def lower(fn: ast.FunctionDef, tuples: bool = True, ifexp: bool = True) -> ast.F
                 d_, k_, v_ = st.value.func.value, st.value.args[0], st.value.args[1]
                 store = ast.Assign(targets=[ast.Subscript(value=copy.deepcopy(d_), slice=copy.deepcopy(k_), ctx=ast.Store())], value=v_)
                 new = [ast.copy_location(ast.If(test=ast.Compare(left=k_, ops=[ast.NotIn()], comparators=[d_]), body=[ast.copy_location(store, st)], orelse=[]), st)]
+            elif ifexp and isinstance(st, ast.Assign) and isinstance(st.value, ast.Tuple) and sum(isinstance(x, ast.IfExp) for x in st.value.elts) == 1 \
+                    and all(is_pure_expr(x) for x in st.value.elts if not isinstance(x, ast.IfExp)) \
+                    and is_pure_expr(next(x for x in st.value.elts if isinstance(x, ast.IfExp)).test):
+                # x = (a, B if c else C)  ->  if c: x = (a, B) else: x = (a, C)
+                pos = next(i_ for i_, x in enumerate(st.value.elts) if isinstance(x, ast.IfExp))
+                ife = st.value.elts[pos]
+
+                def mkta(v: ast.expr) -> ast.stmt:
+                    c = copy.deepcopy(st)
+                    c.value.elts[pos] = v  # type: ignore[union-attr]
+                    return c
+                new = [ast.copy_location(ast.If(test=ife.test, body=[mkta(ife.body)], orelse=[mkta(ife.orelse)]), st)]
             elif isinstance(st, (ast.Assign, ast.AnnAssign)) and isinstance(st.value, ast.IfExp):
                 def mk(v: ast.expr) -> ast.stmt:
                     c = copy.copy(st)
@@ -1625,6 +1683,24 @@ class _Canon(ast.NodeTransformer):
         if len(node.generators) != 1:
             return node
         g = node.generators[0]
+        # for a, b in zip(A, repeat(X)):  b is X for every element of A
+        if isinstance(g.iter, ast.Call) and dotted(g.iter.func) == "zip" and len(g.iter.args) == 2 and not g.iter.keywords \
+                and isinstance(g.target, ast.Tuple) and len(g.target.elts) == 2 and all(isinstance(x, ast.Name) for x in g.target.elts):
+            for pos in (0, 1):
+                rp = g.iter.args[pos]
+                if isinstance(rp, ast.Call) and dotted(rp.func) in ("repeat", "itertools.repeat") and len(rp.args) == 1 and not rp.keywords and is_pure_expr(rp.args[0]):
+                    other = g.iter.args[1 - pos]
+                    if isinstance(other, ast.Call) and dotted(other.func) in ("repeat", "itertools.repeat"):
+                        break
+                    m_ = {g.target.elts[pos].id: rp.args[0]}  # type: ignore[attr-defined]
+                    new0 = copy.copy(node)
+                    for fld in ("elt", "key", "value"):
+                        if hasattr(node, fld):
+                            setattr(new0, fld, _Subst(m_).visit(copy.deepcopy(getattr(node, fld))))
+                    new0.generators = [ast.comprehension(target=g.target.elts[1 - pos], iter=other, ifs=[_Subst(m_).visit(copy.deepcopy(c)) for c in g.ifs], is_async=0)]
+                    node = ast.copy_location(ast.fix_missing_locations(new0), node)
+                    g = node.generators[0]
+                    break
         inner = g.iter
         if not (isinstance(inner, ast.GeneratorExp) and len(inner.generators) == 1 and not g.is_async and not inner.generators[0].is_async):
             return node
@@ -1977,9 +2053,143 @@ class _Strings(ast.NodeTransformer):
     """The string spellings of _Canon only (run again after locals were substituted)."""
     visit_JoinedStr = _Canon.visit_JoinedStr
     visit_BinOp = _Canon.visit_BinOp
+    _fuse = _Canon._fuse
+    visit_GeneratorExp = _Canon._fuse
+    visit_ListComp = _Canon._fuse
+    visit_SetComp = _Canon._fuse
+    visit_DictComp = _Canon._fuse
 
     def visit_ClassDef(self, node: ast.ClassDef) -> ast.AST:
         return node
+
+
+def _quantifier(cond: ast.expr, target: ast.expr, it: ast.expr, k_hit: bool) -> ast.expr:
+    """The value of `for T in IT: if C: <k_hit>; stop` / otherwise `not k_hit`, as any()/all() over the same tests in the same order."""
+    def gen(elt: ast.expr) -> ast.expr:
+        return ast.GeneratorExp(elt=elt, generators=[ast.comprehension(target=copy.deepcopy(target), iter=it, ifs=[], is_async=0)])
+    neg = isinstance(cond, ast.UnaryOp) and isinstance(cond.op, ast.Not)
+    if k_hit:
+        return ast.Call(func=ast.Name(id="any", ctx=ast.Load()), args=[gen(cond)], keywords=[])
+    if neg:
+        return ast.Call(func=ast.Name(id="all", ctx=ast.Load()), args=[gen(cond.operand)], keywords=[])  # type: ignore[union-attr]
+    return ast.UnaryOp(op=ast.Not(), operand=ast.Call(func=ast.Name(id="any", ctx=ast.Load()), args=[gen(cond)], keywords=[]))
+
+
+def _search_loops(fn: ast.FunctionDef) -> None:
+    """Boolean search loops are quantifiers (same tests, same order, same short circuit):
+    * ``for T in IT: if C: return K`` ; ``return not K``
+    * ``for T in IT: if C: X = K; break`` ``else: X = not K``            (and the form with ``X = not K`` before the loop)
+    with K a boolean constant and no other statement in the loop."""
+    def boolc(e: ast.expr | None) -> bool | None:
+        return e.value if isinstance(e, ast.Constant) and isinstance(e.value, bool) else None
+
+    def shape(lp: ast.stmt) -> tuple[ast.expr, ast.stmt] | None:
+        if not (isinstance(lp, ast.For) and len(lp.body) == 1 and isinstance(lp.body[0], ast.If) and not lp.body[0].orelse):
+            return None
+        if any(isinstance(n, (ast.Yield, ast.YieldFrom, ast.Await, ast.NamedExpr)) for n in ast.walk(lp.body[0].test)):
+            return None
+        return lp.body[0].test, lp.body[0]
+
+    def rewrite(block: list[ast.stmt]) -> None:
+        i = 0
+        while i < len(block):
+            st = block[i]
+            sh = shape(st)
+            new: list[ast.stmt] | None = None
+            if sh is not None:
+                cond, iff = sh
+                nxt = block[i + 1] if i + 1 < len(block) else None
+                b = iff.body
+                if len(b) == 1 and isinstance(b[0], ast.Return) and boolc(b[0].value) is not None and not st.orelse \
+                        and isinstance(nxt, ast.Return) and boolc(nxt.value) == (not boolc(b[0].value)):
+                    new = [ast.copy_location(ast.Return(value=_quantifier(cond, st.target, st.iter, bool(boolc(b[0].value)))), st)]
+                    block[i:i + 2] = new
+                elif len(b) == 2 and isinstance(b[1], ast.Break) and isinstance(b[0], ast.Assign) and len(b[0].targets) == 1 and isinstance(b[0].targets[0], ast.Name) \
+                        and boolc(b[0].value) is not None:
+                    x = b[0].targets[0].id
+                    k = bool(boolc(b[0].value))
+                    used = any(isinstance(n, ast.Name) and n.id == x for e_ in (cond, st.iter, st.target) for n in ast.walk(e_))
+                    if not used and len(st.orelse) == 1 and isinstance(st.orelse[0], ast.Assign) and len(st.orelse[0].targets) == 1 \
+                            and norm(st.orelse[0].targets[0]) == x and boolc(st.orelse[0].value) == (not k):
+                        new = [ast.copy_location(ast.Assign(targets=[ast.Name(id=x, ctx=ast.Store())], value=_quantifier(cond, st.target, st.iter, k)), st)]
+                        block[i:i + 1] = new
+                    elif not used and not st.orelse and i > 0 and isinstance(block[i - 1], ast.Assign) and len(block[i - 1].targets) == 1 \
+                            and norm(block[i - 1].targets[0]) == x and boolc(block[i - 1].value) == (not k):
+                        new = [ast.copy_location(ast.Assign(targets=[ast.Name(id=x, ctx=ast.Store())], value=_quantifier(cond, st.target, st.iter, k)), st)]
+                        block[i - 1:i + 1] = new
+                        i -= 1
+            if new is not None:
+                for n_ in new:
+                    ast.fix_missing_locations(n_)
+                i += 1
+                continue
+            for sub in _blocks(st):
+                rewrite(sub)
+            i += 1
+
+    rewrite(fn.body)
+
+
+def _collect_loops(fn: ast.FunctionDef) -> None:
+    """``X = {}`` / ``[]`` followed by a loop that does nothing but fill X (guards spelled as ``if C: continue`` or ``if C: <store>``) is the
+    comprehension with the same elements in the same order.  The loop variables must not be read after the loop."""
+    def negate(c: ast.expr) -> ast.expr:
+        return _Canon().visit(ast.UnaryOp(op=ast.Not(), operand=c)) if not (isinstance(c, ast.UnaryOp) and isinstance(c.op, ast.Not)) else c.operand
+
+    def body_shape(body: list[ast.stmt], x: str) -> tuple[list[ast.expr], ast.stmt] | None:
+        conds: list[ast.expr] = []
+        cur = list(body)
+        while cur:
+            st = cur[0]
+            if isinstance(st, ast.If) and not st.orelse and len(st.body) == 1 and isinstance(st.body[0], ast.Continue) and len(cur) > 1:
+                conds.append(negate(st.test))
+                cur = cur[1:]
+                continue
+            if isinstance(st, ast.If) and not st.orelse and len(cur) == 1:
+                conds.append(st.test)
+                cur = list(st.body)
+                continue
+            break
+        if len(cur) != 1:
+            return None
+        st = cur[0]
+        if isinstance(st, ast.Assign) and len(st.targets) == 1 and isinstance(st.targets[0], ast.Subscript) and norm(st.targets[0].value) == x:
+            return conds, st
+        if isinstance(st, ast.Expr) and isinstance(st.value, ast.Call) and isinstance(st.value.func, ast.Attribute) and st.value.func.attr == "append" \
+                and norm(st.value.func.value) == x and len(st.value.args) == 1 and not st.value.keywords:
+            return conds, st
+        return None
+
+    def rewrite(block: list[ast.stmt]) -> None:
+        i = 0
+        while i < len(block):
+            st = block[i]
+            if i + 1 < len(block) and isinstance(st, ast.Assign) and len(st.targets) == 1 and isinstance(st.targets[0], ast.Name) \
+                    and ((isinstance(st.value, ast.Dict) and not st.value.keys) or (isinstance(st.value, ast.List) and not st.value.elts)) \
+                    and isinstance(block[i + 1], ast.For) and not block[i + 1].orelse:
+                x = st.targets[0].id
+                lp = block[i + 1]
+                sh = body_shape(lp.body, x)
+                tnames = {n.id for n in ast.walk(lp.target) if isinstance(n, ast.Name)}
+                reads_x = any(isinstance(n, ast.Name) and n.id == x for e_ in [lp.iter] + (sh[0] if sh else []) for n in ast.walk(e_))
+                later = any(isinstance(n, ast.Name) and n.id in tnames and isinstance(n.ctx, ast.Load) for b_ in block[i + 2:] for n in ast.walk(b_))
+                if sh is not None and not reads_x and not later and not any(isinstance(n, (ast.Yield, ast.YieldFrom, ast.Await)) for n in ast.walk(lp)):
+                    conds, store = sh
+                    is_dict = isinstance(st.value, ast.Dict)
+                    elems = [store.targets[0].slice, store.value] if isinstance(store, ast.Assign) else [store.value.args[0]]  # type: ignore[union-attr]
+                    if (is_dict == isinstance(store, ast.Assign)) and not any(isinstance(n, ast.Name) and n.id == x for e_ in elems for n in ast.walk(e_)):
+                        gen = ast.comprehension(target=lp.target, iter=lp.iter, ifs=conds, is_async=0)
+                        comp: ast.expr = ast.DictComp(key=elems[0], value=elems[1], generators=[gen]) if is_dict else ast.ListComp(elt=elems[0], generators=[gen])
+                        new = ast.copy_location(ast.Assign(targets=st.targets, value=comp), st)
+                        ast.fix_missing_locations(new)
+                        block[i:i + 2] = [new]
+                        i += 1
+                        continue
+            for sub in _blocks(st):
+                rewrite(sub)
+            i += 1
+
+    rewrite(fn.body)
 
 
 def _canon_body(fn: ast.FunctionDef) -> list[ast.stmt]:
@@ -2026,6 +2236,8 @@ def normalize(fn: ast.FunctionDef, cls: ast.ClassDef | None, qual: str, inliner:
                 new.body = [_Subst(consts).visit(st) for st in new.body]
         new.body = _canon_body(new)  # inlined helper bodies get the same canonical spellings
     new = lower(new, tuples=True, ifexp=False)
+    _search_loops(new)
+    _collect_loops(new)
     new = inline_locals(new, keep)
     _inline_adjacent(new)
     new = lower(new, tuples=True, ifexp=True)
